@@ -94,7 +94,7 @@ from pywbem import CIMInstanceName, CIMInstance, CIMError, CIMClass, \
     CIM_ERR_INVALID_PARAMETER, CIM_ERR_ALREADY_EXISTS, CIM_ERR_INVALID_CLASS, \
     CIM_ERR_NOT_FOUND
 
-from pywbem._utils import _format
+from pywbem._utils import _format, _eq_item
 
 from ._baseprovider import BaseProvider
 
@@ -410,7 +410,8 @@ class InstanceWriteProvider(BaseProvider):
                             _format("Reference property {0!A} association "
                                     "end {1!A} with None value not allowed ",
                                     prop.name, prop.value))
-                    if prop.value != original_instance[pn]:
+                    if pn not in original_instance or \
+                            not _eq_item(prop.value, original_instance[pn]):
                         self.validate_reference_property_endpoint_exists(prop,)
 
         # Update the properties in the original instance from properties
